@@ -94,8 +94,8 @@ def impl_visit(tree, ser, path, m, add_self, table):
     return {"calls": calls, "out": out}
 
 
-def setup_tree(ctx, spec):
-    tree = adapter.build(spec, ctx.pool)
+def setup_tree(ctx, spec, typed=False):
+    tree = adapter.build(spec, ctx.pool, typed=typed)
     ser = adapter.Serials()
     ser.by_obj[id(tree.system_root)] = 0
     ser.keep.append(tree.system_root)
@@ -151,8 +151,8 @@ def run(ctx):
         reqs.clear()
         pend.clear()
 
-    def do_tree(spec, visits=True, full_pairs=True):
-        tree, ser, tj = setup_tree(ctx, spec)
+    def do_tree(spec, visits=True, full_pairs=True, typed=False):
+        tree, ser, tj = setup_tree(ctx, spec, typed)
         size = gen.spec_size(spec)
         paths = [()] + list(gen.all_paths(spec))
         for path in paths:
@@ -162,7 +162,9 @@ def run(ctx):
             for m in METHODS:
                 for add_self in (False, True):
                     r = check_iter(ctx, out, tree, ser, tj, spec, path, m, add_self)
-                    out.count(("i", repr(spec), path, m, add_self), nontriv)
+                    if r and typed:
+                        r[2]["typed"] = True
+                    out.count(("i", typed, repr(spec), path, m, add_self), nontriv)
                     out.dist["iter:" + m] += 1
                     if r:
                         req, impl, case = r
@@ -189,10 +191,10 @@ def run(ctx):
                             k = next(spell)
                             table[st] = STOPS[k % len(STOPS)] if k % 13 else OTHERS[k % 2]
                         impl = impl_visit(tree, ser, path, m, add_self, table)
-                        case = dict(kind="visit", spec=spec, path=list(path), m=m, self=add_self, cb={str(k): list(v) for k, v in table.items()})
+                        case = dict(kind="visit", spec=spec, path=list(path), m=m, self=add_self, cb={str(k): list(v) for k, v in table.items()}, typed=typed)
                         reqs.append({"op": "visit", "t": tj, "path": list(path), "m": m, "self": add_self, "cb": case["cb"]})
                         pend.append((case, impl, f"visit({m}, add_self={add_self}) at {list(path)} cb={case['cb']}"))
-                        out.count(("v", repr(spec), path, m, add_self, repr(sorted(table.items()))), nontriv)
+                        out.count(("v", typed, repr(spec), path, m, add_self, repr(sorted(table.items()))), nontriv)
                         for tag, _ in table.values():
                             out.dist["sig:" + tag] += 1
                         out.dist["visit:" + m] += 1
@@ -212,6 +214,11 @@ def run(ctx):
             do_tree(spec, full_pairs=(n <= 4 or ctx.thorough))
     out.exhaustive = True
     out.extra["exhaustive_scope"] = f"all ordered forests with <= {n_max} nodes"
+    # the same traversals on typed trees (TypedNode overrides iterator(); the kind plays no role in a traversal)
+    for n in range(0, (5 if ctx.thorough else 4) + 1):
+        for shape in gen.forests(n):
+            do_tree(gen.distinct_labeling(shape, alphabet), full_pairs=False, typed=True)
+            out.dist["typed_tree"] += 1
     # random larger trees
     n_rand = 150 if ctx.thorough else 25
     for _ in range(n_rand):
@@ -246,7 +253,7 @@ def replay(ctx, rp):
 
     case = rp["case"]
     spec = tuplify(case["spec"])
-    tree, ser, tj = setup_tree(ctx, spec)
+    tree, ser, tj = setup_tree(ctx, spec, bool(case.get("typed")))
     out = core.Outcome()
     path = tuple(case["path"])
     if case["kind"] == "iter":
